@@ -2,7 +2,12 @@
 import numpy as np
 
 from harness import corpus, drivercheck
-from harness.problems import CONVEX, NONCONVEX
+from harness.problems import CONVEX, NONCONVEX, CS_OK
+
+
+def problems_cs():
+    return CS_OK
+
 
 PREFIX = ("C05_", "C15_NoReeval")
 RULE = ("design: TLC exhausts MCDriver with the memo cell of the function wrapper (hit at the accepted point when "
@@ -17,7 +22,7 @@ def specs(ctx):
     fams = CONVEX + NONCONVEX
     for i in range(ctx.pick(420, 4000)):
         jac = ["callable", "callable", "callable", "none", "2-point", "3-point", "cs"][i % 7]
-        s = corpus.rand_spec(rng, fams if jac != "cs" else CONVEX + ["qpcos", "osc", "badscale", "sphere", "quartic"],
+        s = corpus.rand_spec(rng, fams if jac != "cs" else problems_cs(),
                              nmax=6, allow_chain=(jac == "callable"), jacs=(jac,))
         if jac != "callable":
             s["kwargs"]["maxiter"] = min(s["kwargs"]["maxiter"], 8)
